@@ -113,59 +113,73 @@ theorem applyGroup_visible (final final' : List Frag) (g : Group)
   have h5 := visible_perm (filter_olds_perm final g.olds hn hsub)
   exact h1.trans ((List.Perm.append_left _ h5.symm).trans h4)
 
-theorem handleRewrite_ok : ∀ (gs : List Group) (final : List Frag) (next : Nat), CommitOk final gs →
-    ∃ final', handleRewrite final gs next = .ok (final', next) ∧ (visible final').Perm (visible final)
-      ∧ (final'.map Frag.id).Nodup
-  | [], final, next, h => ⟨final, rfl, List.Perm.refl _, h.nodup⟩
-  | g :: gs, final, next, h => by
-    have hg : g ∈ g :: gs := List.mem_cons_self ..
-    obtain ⟨final₁, happ, hperm, hrest, hnews⟩ :=
-      applyGroup_ok final g next h.nodup (h.nonempty g hg) (h.sub g hg) (h.newNonzero g hg)
-    have hvis := applyGroup_visible final final₁ g h.nodup (h.sub g hg) (h.rows g hg) hperm
-    have hdis := List.pairwise_cons.mp h.disjoint
-    have hnn := h.newNodup
-    simp only [List.flatMap_cons, List.map_append] at hnn
-    have hnn' := List.nodup_append.mp hnn
-    -- ids of the new manifest
-    have hids : (final₁.map Frag.id).Perm
-        ((final.filter (fun f => !(g.olds.map Frag.id).contains f.id)).map Frag.id ++ g.news.map Frag.id) := by
-      have := hperm.map Frag.id
-      simpa using this
-    have hnodup₁ : (final₁.map Frag.id).Nodup := by
-      apply hids.nodup_iff.mpr
-      refine List.nodup_append.mpr ⟨sublist_nodup_ids List.filter_sublist h.nodup, hnn'.1, ?_⟩
-      intro a ha b hb hab
-      subst hab
-      obtain ⟨n, hn1, hn2⟩ := List.mem_map.mp hb
-      obtain ⟨f, hf1, hf2⟩ := List.mem_map.mp ha
-      apply h.newFresh g hg n hn1
-      rw [hn2, ← hf2]
+/-- one group of a valid commit: it applies, keeps the scan up to order, and the remaining groups stay valid -/
+theorem commitOk_step (g : Group) (gs : List Group) (final : List Frag) (next : Nat) (h : CommitOk final (g :: gs)) :
+    ∃ final₁, applyGroup final g next = .ok (final₁, next) ∧ (visible final₁).Perm (visible final)
+      ∧ CommitOk final₁ gs := by
+  have hg : g ∈ g :: gs := List.mem_cons_self ..
+  obtain ⟨final₁, happ, hperm, hrest, hnews⟩ :=
+    applyGroup_ok final g next h.nodup (h.nonempty g hg) (h.sub g hg) (h.newNonzero g hg)
+  have hvis := applyGroup_visible final final₁ g h.nodup (h.sub g hg) (h.rows g hg) hperm
+  have hdis := List.pairwise_cons.mp h.disjoint
+  have hnn := h.newNodup
+  simp only [List.flatMap_cons, List.map_append] at hnn
+  have hnn' := List.nodup_append.mp hnn
+  -- ids of the new manifest
+  have hids : (final₁.map Frag.id).Perm
+      ((final.filter (fun f => !(g.olds.map Frag.id).contains f.id)).map Frag.id ++ g.news.map Frag.id) := by
+    have := hperm.map Frag.id
+    simpa using this
+  have hnodup₁ : (final₁.map Frag.id).Nodup := by
+    apply hids.nodup_iff.mpr
+    refine List.nodup_append.mpr ⟨sublist_nodup_ids List.filter_sublist h.nodup, hnn'.1, ?_⟩
+    intro a ha b hb hab
+    subst hab
+    obtain ⟨n, hn1, hn2⟩ := List.mem_map.mp hb
+    obtain ⟨f, hf1, hf2⟩ := List.mem_map.mp ha
+    apply h.newFresh g hg n hn1
+    rw [hn2, ← hf2]
+    exact List.mem_map_of_mem (List.mem_filter.mp hf1).1
+  refine ⟨final₁, happ, hvis, ?_⟩
+  refine ⟨hnodup₁, fun k hk => h.nonempty k (List.mem_cons_of_mem _ hk), ?_, hdis.2,
+    fun k hk => h.rows k (List.mem_cons_of_mem _ hk), fun k hk => h.newNonzero k (List.mem_cons_of_mem _ hk),
+    ?_, hnn'.2.1⟩
+  · intro k hk
+    have hs := h.sub k (List.mem_cons_of_mem _ hk)
+    have hs2 := hs.filter (fun f => !(g.olds.map Frag.id).contains f.id)
+    have hkeep : k.olds.filter (fun f => !(g.olds.map Frag.id).contains f.id) = k.olds := by
+      apply filter_keep
+      intro f hf hmem
+      obtain ⟨o, ho1, ho2⟩ := List.mem_map.mp hmem
+      exact hdis.1 k hk o ho1 f hf ho2
+    rw [hkeep] at hs2
+    exact hs2.trans hrest
+  · intro k hk n hn hmem
+    rcases List.mem_append.mp (hids.subset hmem) with h1 | h1
+    · obtain ⟨f, hf1, hf2⟩ := List.mem_map.mp h1
+      apply h.newFresh k (List.mem_cons_of_mem _ hk) n hn
+      rw [← hf2]
       exact List.mem_map_of_mem (List.mem_filter.mp hf1).1
-    have hok : CommitOk final₁ gs := by
-      refine ⟨hnodup₁, fun k hk => h.nonempty k (List.mem_cons_of_mem _ hk), ?_, hdis.2,
-        fun k hk => h.rows k (List.mem_cons_of_mem _ hk), fun k hk => h.newNonzero k (List.mem_cons_of_mem _ hk),
-        ?_, hnn'.2.1⟩
-      · intro k hk
-        have hs := h.sub k (List.mem_cons_of_mem _ hk)
-        have hs2 := hs.filter (fun f => !(g.olds.map Frag.id).contains f.id)
-        have hkeep : k.olds.filter (fun f => !(g.olds.map Frag.id).contains f.id) = k.olds := by
-          apply filter_keep
-          intro f hf hmem
-          obtain ⟨o, ho1, ho2⟩ := List.mem_map.mp hmem
-          exact hdis.1 k hk o ho1 f hf ho2
-        rw [hkeep] at hs2
-        exact hs2.trans hrest
-      · intro k hk n hn hmem
-        rcases List.mem_append.mp (hids.subset hmem) with h1 | h1
-        · obtain ⟨f, hf1, hf2⟩ := List.mem_map.mp h1
-          apply h.newFresh k (List.mem_cons_of_mem _ hk) n hn
-          rw [← hf2]
-          exact List.mem_map_of_mem (List.mem_filter.mp hf1).1
-        · apply hnn'.2.2 n.id h1 n.id ?_ rfl
-          exact List.mem_map_of_mem (List.mem_flatMap.mpr ⟨k, hk, hn⟩)
-    obtain ⟨final', hrec, hv, hnd⟩ := handleRewrite_ok gs final₁ next hok
-    refine ⟨final', ?_, hv.trans hvis, hnd⟩
+    · apply hnn'.2.2 n.id h1 n.id ?_ rfl
+      exact List.mem_map_of_mem (List.mem_flatMap.mpr ⟨k, hk, hn⟩)
+
+/-- committing the first groups of a valid commit leaves the later groups a valid commit on the result -/
+theorem handleRewrite_split : ∀ (gs rest : List Group) (final : List Frag) (next : Nat),
+    CommitOk final (gs ++ rest) →
+    ∃ final', handleRewrite final gs next = .ok (final', next) ∧ (visible final').Perm (visible final)
+      ∧ CommitOk final' rest
+  | [], rest, final, next, h => ⟨final, rfl, List.Perm.refl _, h⟩
+  | g :: gs, rest, final, next, h => by
+    obtain ⟨final₁, happ, hvis, hok⟩ := commitOk_step g (gs ++ rest) final next h
+    obtain ⟨final', hrec, hv, hr⟩ := handleRewrite_split gs rest final₁ next hok
+    refine ⟨final', ?_, hv.trans hvis, hr⟩
     simp only [handleRewrite, happ, hrec]
+
+theorem handleRewrite_ok (gs : List Group) (final : List Frag) (next : Nat) (h : CommitOk final gs) :
+    ∃ final', handleRewrite final gs next = .ok (final', next) ∧ (visible final').Perm (visible final)
+      ∧ (final'.map Frag.id).Nodup := by
+  obtain ⟨final', h1, h2, h3⟩ := handleRewrite_split gs [] final next (by simpa using h)
+  exact ⟨final', h1, h2, h3.nodup⟩
 
 theorem flatMap_sublist {α β : Type} (f : α → List β) : ∀ {a b : List α}, a.Sublist b → (a.flatMap f).Sublist (b.flatMap f)
   | _, _, .slnil => List.Sublist.refl _
